@@ -116,6 +116,32 @@ def check_named(ctx: core.Ctx, mod: ast.Module, fname: str, kind: str):
     ctx.functions.append(f"common.{fname}.<class>.__init__")
     # compare what __init__ does, not how it is arranged: helpers inlined, guard clauses / swapped arms / temporaries normalised
     from .. import normast
+    import copy as _copy
+    # constants of the enclosing factory (`size = len(arglist)`, `allowed_keys = tuple(str(a) for a in arglist)`: bound once at the factory's top
+    # level, never re-bound in a nested scope) are read by the class body through the closure: they are local knowledge of __init__
+    nested_stores = {x.id for d in ast.walk(fn) if isinstance(d, (ast.FunctionDef, ast.ClassDef, ast.Lambda)) and d is not fn
+                     for x in ast.walk(d) if isinstance(x, ast.Name) and isinstance(x.ctx, ast.Store)}
+    counts = {}
+    for st in fn.body:
+        if isinstance(st, ast.Assign) and len(st.targets) == 1 and isinstance(st.targets[0], ast.Name):
+            counts[st.targets[0].id] = counts.get(st.targets[0].id, 0) + 1
+    used_in_init = {x.id for x in ast.walk(init) if isinstance(x, ast.Name)}
+    closure = [st for st in fn.body if isinstance(st, ast.Assign) and len(st.targets) == 1 and isinstance(st.targets[0], ast.Name)
+               and counts[st.targets[0].id] == 1 and st.targets[0].id not in nested_stores
+               and not any(isinstance(x, (ast.Lambda, ast.Yield, ast.Await)) for x in ast.walk(st.value))]
+    if closure:
+        init = _copy.deepcopy(init)
+        pre = []
+        for st in closure:
+            st = _copy.deepcopy(st)
+            v = st.value
+            # tuple(<genexp>) / list(<genexp>) of the names is the list of the names
+            if isinstance(v, ast.Call) and isinstance(v.func, ast.Name) and v.func.id in ("tuple", "list") and len(v.args) == 1 and not v.keywords \
+                    and isinstance(v.args[0], ast.GeneratorExp):
+                st.value = ast.copy_location(ast.ListComp(v.args[0].elt, v.args[0].generators), v)
+            pre.append(st)
+        init.body = pre + init.body
+        ast.fix_missing_locations(init)
     nz = normast.Normaliser(normast.class_resolver(mod, cls))
     init = nz.function(init)
     # class-body constants of the generated class (`_arglist = arglist`, `_name = name`) read through self / cls are the factory's own arguments
@@ -198,7 +224,13 @@ def check_named(ctx: core.Ctx, mod: ast.Module, fname: str, kind: str):
     shape = None
     for s in cls.body:
         if isinstance(s, ast.Assign) and ast.unparse(s.targets[0]) == "shape":
-            shape = ast.unparse(s.value).replace(" ", "")
+            # closure constants of the factory (`size = len(arglist)`) are read through
+            cl = {c_.targets[0].id: c_.value for c_ in closure} if closure else {}
+
+            class _S(ast.NodeTransformer):
+                def visit_Name(self, n_):
+                    return _copy.deepcopy(cl[n_.id]) if isinstance(n_.ctx, ast.Load) and n_.id in cl else n_
+            shape = ast.unparse(_S().visit(_copy.deepcopy(s.value))).replace(" ", "")
     want = f"(len({arglist}),1)" if kind == "vec" else f"(len({arglist}),len({arglist}))"
     ctx.oblige("NV-SHAPE", where, f"shape = {shape}", shape == want, file=COMMON, func=fname, construct="shape", msg=f"class shape is {shape}; required {want}")
 
